@@ -73,17 +73,20 @@ Record hconn := mkH {
   h_uri : list byte;                       (* [] reads as "/" *)
   h_vers : list byte;
   h_reason : option (list byte);
-  h_hdrs : list (list byte * list byte)
+  h_hdrs : list (list byte * list byte);
+  h_unk : bool                             (* model only: a URI outside [canon_simple] was met *)
 }.
-Definition hconn_init : hconn := mkH false 0 s_GET [] s_HTTP11 None [].   (* nni_http_conn_reset *)
+Definition hconn_init : hconn := mkH false 0 s_GET [] s_HTTP11 None [] false.   (* nni_http_conn_reset *)
 Definition get_status (h : hconn) : N := if h_code h =? 0 then 200 else h_code h.
 
 Definition set_parsed (h : hconn) (p : bool) : hconn :=
-  mkH p (h_code h) (h_meth h) (h_uri h) (h_vers h) (h_reason h) (h_hdrs h).
+  mkH p (h_code h) (h_meth h) (h_uri h) (h_vers h) (h_reason h) (h_hdrs h) (h_unk h).
 Definition set_code (h : hconn) (c : N) (r : option (list byte)) : hconn :=
-  mkH (h_parsed h) c (h_meth h) (h_uri h) (h_vers h) r (h_hdrs h).
+  mkH (h_parsed h) c (h_meth h) (h_uri h) (h_vers h) r (h_hdrs h) (h_unk h).
 Definition set_hdrs (h : hconn) (l : list (list byte * list byte)) : hconn :=
-  mkH (h_parsed h) (h_code h) (h_meth h) (h_uri h) (h_vers h) (h_reason h) l.
+  mkH (h_parsed h) (h_code h) (h_meth h) (h_uri h) (h_vers h) (h_reason h) l (h_unk h).
+Definition set_unk (h : hconn) : hconn :=
+  mkH (h_parsed h) (h_code h) (h_meth h) (h_uri h) (h_vers h) (h_reason h) (h_hdrs h) true.
 
 (* nni_http_set_version *)
 Definition version_ok (v : list byte) : bool := existsb (bytes_eqb v) http_versions.
@@ -116,8 +119,7 @@ Definition parse_header (isreq : bool) (h : hconn) (line : list byte) : hconn * 
 
 (* nni_url_canonify_uri, restricted: on URIs made of unreserved characters and
    single slashes without dot segments it is the identity; a '%' not followed
-   by two hex digits is an error; anything else is outside the model
-   (None). *)
+   by two hex digits is an error; anything else is outside the model. *)
 Definition is_hex (c : byte) : bool := is_digit c || is_upper_hex c || is_lower_hex c.
 Definition uri_plain (c : byte) : bool :=
   is_alnum c || (c =? 95) || (c =? 126) || (c =? 45).
@@ -142,21 +144,21 @@ Definition canon_simple (u : list byte) : canon_res :=
   else if uri_simple 0 u then CanonOk u
   else CanonUnknown.
 
-(* http_req_parse_line.  [unknown] is set when the URI is outside the model. *)
-Definition req_parse_line (h : hconn) (line : list byte) : hconn * bool :=
-  if 400 <=? get_status h then (h, false)
+(* http_req_parse_line (always returns NNG_OK: failures are HTTP statuses) *)
+Definition req_parse_line (h : hconn) (line : list byte) : hconn :=
+  if 400 <=? get_status h then h
   else match split_at 32 line with
-       | None => (set_code h 400 None, false)
+       | None => set_code h 400 None
        | Some (method, r1) =>
            match split_at 32 r1 with
-           | None => (set_code h 400 None, false)
+           | None => set_code h 400 None
            | Some (uri, version) =>
                match canon_simple uri with
-               | CanonErr => (set_code h 400 None, false)
-               | CanonUnknown => (h, true)
+               | CanonErr => set_code h 400 None
+               | CanonUnknown => set_unk h
                | CanonOk u =>
-                   if negb (version_ok version) then (set_code h 505 None, false)
-                   else (mkH (h_parsed h) (h_code h) (firstn 31 method) u version (h_reason h) (h_hdrs h), false)
+                   if negb (version_ok version) then set_code h 505 None
+                   else mkH (h_parsed h) (h_code h) (firstn 31 method) u version (h_reason h) (h_hdrs h) (h_unk h)
                end
            end
        end.
@@ -175,81 +177,92 @@ Definition atoi32 (l : list byte) : N :=
   | _ => N.min (digits_val l 0) 9223372036854775807 mod 4294967296
   end.
 
+(* the status code.  [strict] = false: the text pinned at e917035 (atoi, then
+   100..999); [strict] = true: after df9e40d (exactly three digits, the first
+   1-9).  None = NNG_EPROTO. *)
+Definition status_code (strict : bool) (codestr : list byte) : option N :=
+  if strict then
+    match codestr with
+    | [a; b; c] => if (49 <=? a) && (a <=? 57) && is_digit b && is_digit c
+                   then Some ((a - 48) * 100 + (b - 48) * 10 + (c - 48)) else None
+    | _ => None
+    end
+  else let st := atoi32 codestr in if (st <? 100) || (999 <? st) then None else Some st.
+
 (* http_res_parse_line: (conn, rv) *)
-Definition res_parse_line (h : hconn) (line : list byte) : hconn * N :=
+Definition res_parse_line (strict : bool) (h : hconn) (line : list byte) : hconn * N :=
   match split_at 32 line with
   | None => (h, NNG_EPROTO)
   | Some (version, r1) =>
       match split_at 32 r1 with
       | None => (h, NNG_EPROTO)
       | Some (codestr, reason) =>
-          let st := atoi32 codestr in
-          if (st <? 100) || (999 <? st) then (h, NNG_EPROTO)
-          else
-            let h1 := set_code h st (Some reason) in
-            if version_ok version
-            then (mkH (h_parsed h1) (h_code h1) (h_meth h1) (h_uri h1) version (h_reason h1) (h_hdrs h1), 0)
-            else (h1, NNG_ENOTSUP)
-      end
-  end.
-
-(* nni_http_req_parse: (conn, rv, *lenp, uri outside the model).  The result
-   of http_parse_header / http_req_parse_line is overwritten by the next
-   http_scan_line: a header line without ':' is skipped silently. *)
-Fixpoint req_parse_loop (fuel : nat) (h : hconn) (buf : list byte) (len : nat) (unk : bool)
-  : hconn * N * nat * bool :=
-  match fuel with
-  | O => (h, NNG_EAGAIN, len, unk)
-  | S f =>
-      match http_scan_line buf with
-      | SAgain => (h, NNG_EAGAIN, len, unk)
-      | SProto => (set_parsed h false, NNG_EPROTO, len, unk)
-      | SLine line rest =>
-          let len1 := (len + (length buf - length rest))%nat in
-          match line with
-          | [] => (set_parsed h false, 0, len1, unk)
-          | _ =>
-              if h_parsed h then req_parse_loop f (fst (parse_header true h line)) rest len1 unk
-              else let '(h1, u) := req_parse_line (set_parsed h true) line in
-                   req_parse_loop f h1 rest len1 (unk || u)
+          match status_code strict codestr with
+          | None => (h, NNG_EPROTO)
+          | Some st =>
+              let h1 := set_code h st (Some reason) in
+              if version_ok version
+              then (mkH (h_parsed h1) (h_code h1) (h_meth h1) (h_uri h1) version (h_reason h1) (h_hdrs h1) (h_unk h1), 0)
+              else (h1, NNG_ENOTSUP)
           end
       end
   end.
-Definition req_parse (h : hconn) (buf : list byte) := req_parse_loop (S (length buf)) h buf 0%nat false.
 
-(* nni_http_res_parse: (conn, rv, *lenp) *)
-Fixpoint res_parse_loop (fuel : nat) (h : hconn) (buf : list byte) (len : nat) : hconn * N * nat :=
-  match fuel with
-  | O => (h, NNG_EAGAIN, len)
-  | S f =>
-      match http_scan_line buf with
-      | SAgain => (h, NNG_EAGAIN, len)
-      | SProto => (h, NNG_EPROTO, len)
-      | SLine line rest =>
-          let len1 := (len + (length buf - length rest))%nat in
-          match line with
-          | [] => (set_parsed h false, 0, len1)
-          | _ =>
-              let '(h1, rv) := if h_parsed h then parse_header false h line
-                               else let '(h2, rv2) := res_parse_line h line in
-                                    (if rv2 =? 0 then set_parsed h2 true else h2, rv2) in
-              if rv =? 0 then res_parse_loop f h1 rest len1 else (h1, rv, len1)
-          end
-      end
-  end.
-Definition res_parse (h : hconn) (buf : list byte) := res_parse_loop (S (length buf)) h buf 0%nat.
+(* ---- the line loop shared by nni_http_req_parse and nni_http_res_parse ----
+   [handle]: what is done with a non-empty line, (conn, rv); the loop goes on
+   while rv = 0.  [on_end]: what happens to the parsed flag when the loop ends
+   with an error (request: cleared whenever rv <> EAGAIN; response: kept).
+   Result: (conn, rv, the bytes not consumed). *)
+Section Loop.
+  Variable handle : hconn -> list byte -> hconn * N.
+  Variable on_end : hconn -> hconn.
+  Fixpoint parse_loop (fuel : nat) (h : hconn) (buf : list byte) : hconn * N * list byte :=
+    match fuel with
+    | O => (h, NNG_EAGAIN, buf)
+    | S f =>
+        match http_scan_line buf with
+        | SAgain => (h, NNG_EAGAIN, buf)
+        | SProto => (on_end h, NNG_EPROTO, buf)
+        | SLine line rest =>
+            match line with
+            | [] => (set_parsed h false, 0, rest)
+            | _ => let '(h1, rv) := handle h line in
+                   if rv =? 0 then parse_loop f h1 rest else (on_end h1, rv, rest)
+            end
+        end
+    end.
+End Loop.
 
-(* ---- the connection as a stream decoder: http_rd_buf (HTTP_RD_REQ / _RES) ---- *)
+(* nni_http_req_parse.  [keep] = false: the text pinned at e917035, where the
+   result of http_parse_header is overwritten by the next http_scan_line (a
+   header line without ':' is skipped silently); [keep] = true: after 8f01e0e
+   the loop is left at the first line that fails. *)
+Definition handle_req (keep : bool) (h : hconn) (line : list byte) : hconn * N :=
+  if h_parsed h then let '(h1, rv) := parse_header true h line in (h1, if keep then rv else 0)
+  else (req_parse_line (set_parsed h true) line, 0).
+Definition req_parse (keep : bool) (h : hconn) (buf : list byte) : hconn * N * list byte :=
+  parse_loop (handle_req keep) (fun h => set_parsed h false) (S (length buf)) h buf.
+
+(* nni_http_res_parse *)
+Definition handle_res (strict : bool) (h : hconn) (line : list byte) : hconn * N :=
+  if h_parsed h then parse_header false h line
+  else let '(h2, rv2) := res_parse_line strict h line in (if rv2 =? 0 then set_parsed h2 true else h2, rv2).
+Definition res_parse (strict : bool) (h : hconn) (buf : list byte) : hconn * N * list byte :=
+  parse_loop (handle_res strict) (fun h => h) (S (length buf)) h buf.
+
+(* the two variants of the parser text: [fixed] selects both repairs *)
+Definition head_parse (keep strict isreq : bool) : hconn -> list byte -> hconn * N * list byte :=
+  if isreq then req_parse keep else res_parse strict.
+
+(* ---- the connection as a stream decoder: http_rd_buf (HTTP_RD_REQ / _RES):
+   the unconsumed bytes are kept and the parse is repeated when more arrive ---- *)
 Inductive hevent := HDone (rv : N) (h : hconn).
-Record hfeed := mkHF { hf_conn : hconn; hf_buf : list byte; hf_done : bool; hf_unk : bool }.
-Definition hfeed_init : hfeed := mkHF hconn_init [] false false.
+Record hfeed := mkHF { hf_conn : hconn; hf_buf : list byte; hf_done : bool }.
+Definition hfeed_init : hfeed := mkHF hconn_init [] false.
 
-Definition http_feed (isreq : bool) (st : hfeed) (input : list byte) : hfeed * list hevent :=
-  if hf_done st then (mkHF (hf_conn st) (hf_buf st ++ input) true (hf_unk st), [])
+Definition http_feed (keep strict isreq : bool) (st : hfeed) (input : list byte) : hfeed * list hevent :=
+  if hf_done st then (mkHF (hf_conn st) (hf_buf st ++ input) true, [])
   else
-    let buf := hf_buf st ++ input in
-    let '(h1, rv, used, unk) :=
-      if isreq then req_parse (hf_conn st) buf
-      else let '(h', rv', u') := res_parse (hf_conn st) buf in (h', rv', u', false) in
-    if rv =? NNG_EAGAIN then (mkHF h1 (skipn used buf) false (hf_unk st || unk), [])
-    else (mkHF h1 (skipn used buf) true (hf_unk st || unk), [HDone rv h1]).
+    let '(h1, rv, rest) := head_parse keep strict isreq (hf_conn st) (hf_buf st ++ input) in
+    if rv =? NNG_EAGAIN then (mkHF h1 rest false, [])
+    else (mkHF h1 rest true, [HDone rv h1]).
